@@ -125,6 +125,7 @@ structure Sess (σ : Type) where
   addr   : String         -- `s.remote.String()`, fixed at creation
   st     : σ              -- everything behind `kcpInput`
   closed : Bool           -- `s.die` closed
+deriving DecidableEq
 
 structure Listener (σ : Type) where
   objs    : List (Sess σ)         -- every session created so far, index = creation index
